@@ -38,6 +38,13 @@ fn main() {
     let out = match prop.as_str() {
         "C01" => frmon::c01::run(&ctx),
         "C02" => frmon::c02::run(&ctx),
+        "C03" => frmon::c03::run(&ctx),
+        "C04" => frmon::c04::run(&ctx),
+        "C05" => frmon::c05::run(&ctx),
+        "C08" => frmon::c08::run(&ctx),
+        "C10" => frmon::c10::run(&ctx),
+        "C11" => frmon::c11::run(&ctx),
+        "C09" => frmon::c09::run(&ctx),
         "C15" => frmon::c15::run(&ctx),
         _ => {
             eprintln!("unknown property {}", prop);
